@@ -20,7 +20,7 @@ RULE = ("case = one simulated process (btcdeb interactive or non-interactive, ta
         "EOF; non-trivial = the run delivered at least 3 user lines or fired at least one fault; distinct = distinct (command kinds, fired faults, termination) tuple")
 ASSUMPTIONS = [
     "ASan + UBSan subset (bounds, null, return, unreachable, vla-bound, integer-divide-by-zero, pointer-overflow) on everything but libsecp256k1",
-    "allocation failure, asynchronous signals and SIGPIPE death are not injected (DESIGN 3.2)",
+    "allocation failure and SIGPIPE death are not injected (DESIGN 3.2); a signal is injected only as Ctrl-C at a prompt (DESIGN 9.8)",
     "crash-freedom over all argv/stdin byte strings (pure parser inputs) is sampled only incidentally; that part of C15 is not claimed",
 ]
 TIERS = {
